@@ -9,7 +9,7 @@ import ast
 import pathlib
 
 KINDS = ["reformat", "rename-locals", "add-statement", "sql-whitespace", "rename+add", "messages", "strip-local-annotations",
-         "return-temp", "reorder-keywords", "annotate-locals"]
+         "return-temp", "reorder-keywords", "annotate-locals", "hoist-condition"]
 
 
 class LocalRenamer(ast.NodeTransformer):
@@ -209,6 +209,30 @@ class AnnotateLocals(ast.NodeTransformer):
     visit_AsyncFunctionDef = visit_FunctionDef
 
 
+class HoistCondition(ast.NodeTransformer):
+    """`if <call or boolean expression>:` becomes `_cond = <expr>; if _cond:` (a common step before logging it)."""
+
+    def _fix(self, body):
+        out = []
+        for st in body:
+            if isinstance(st, ast.If) and isinstance(st.test, (ast.Call, ast.BoolOp, ast.Compare)) and not any(isinstance(x, (ast.NamedExpr, ast.Await)) for x in ast.walk(st.test)):
+                out.append(ast.Assign(targets=[ast.Name(id="_cond", ctx=ast.Store())], value=st.test, lineno=st.lineno))
+                st.test = ast.Name(id="_cond", ctx=ast.Load())
+            out.append(st)
+        return out
+
+    def generic_visit(self, node):
+        super().generic_visit(node)
+        for field in ("body", "orelse", "finalbody"):
+            b = getattr(node, field, None)
+            if isinstance(b, list) and b and isinstance(b[0], ast.stmt):
+                # an `elif` chain keeps its shape: only rewrite statement lists, not the single-If orelse of an elif
+                if field == "orelse" and isinstance(node, ast.If) and len(b) == 1 and isinstance(b[0], ast.If):
+                    continue
+                setattr(node, field, self._fix(b))
+        return node
+
+
 class SqlWhitespace(ast.NodeTransformer):
     """Collapse runs of whitespace inside SQL string constants (line-comment free ones only)."""
 
@@ -248,6 +272,9 @@ def make_variant(kind, dst, repo="/repo"):
             ast.fix_missing_locations(tree)
         elif kind == "annotate-locals":
             tree = AnnotateLocals().visit(tree)
+            ast.fix_missing_locations(tree)
+        elif kind == "hoist-condition":
+            tree = HoistCondition().visit(tree)
             ast.fix_missing_locations(tree)
         elif kind == "messages":
             tree = EditMessages().visit(tree)
